@@ -71,6 +71,42 @@ Section Exec.
 
   (** resolveBatch and below.  [ex] runs a unit synchronously (the "default" case of
       resolveObjectBatch and the key field).  [inr e] is the error return of resolveBatch. *)
+
+  (** Under F9 the directives of a selection are looked at in resolveObjectBatch, after __typename
+      (as repaired, Flatten has applied them already and the selections carry none). *)
+  Fixpoint check_sels (l : list item) : res (list item) :=
+    match l with
+    | [] => Ok []
+    | it :: t =>
+        if String.eqb (s_name (fst it)) "__typename" then
+          match check_sels t with Bad e => Bad e | Ok t' => Ok (it :: t') end
+        else
+          match should_include Q (s_dirs (fst it)) with
+          | Bad e => Bad e
+          | Ok b => match check_sels t with Bad e => Bad e | Ok t' => Ok (if b then it :: t' else t') end
+          end
+    end.
+
+  (** One flattened selection over all non-nil sources: __typename is filled in at once, a function
+      field becomes one or several units, a struct field (and the key field, [sync]) is run at once. *)
+  Definition per_sel (ex : wunit -> xres) (o : object) (nonnil : list (value * path)) (sync : bool) (it : item) : xres :=
+    let h := fst it in
+    let dests := map (fun x => (fst x, snd x ++ [PKey (s_alias h)])) nonnil in
+    if String.eqb (s_name h) "__typename" then
+      mk_xres (map (fun x => (snd x, NVal (JStr (o_name o)))) dests) [] []
+    else
+      match find_field (s_name h) (o_fields o) with
+      | None => mk_xres [] [] (map (fun x => nest (snd x) err_invalid) dests)
+      | Some f =>
+          let u := mk_unit f h (snd it) dests false (o_name o) in
+          if sync then ex u
+          else if should_use_batch f then
+            mk_xres [] (split_par (mk_unit f h (snd it) dests true (o_name o))) []
+          else if f_expensive f then mk_xres [] (split_work_unit u) []
+          else if f_external f then mk_xres [] (split_par u) []
+          else ex u
+      end.
+
   Definition resolve_object (ex : wunit -> xres) (oname : string) (s : selset) (items : list (value * path))
     : xres + err :=
     match flatten Q s with
@@ -81,50 +117,18 @@ Section Exec.
         | Some o =>
             let nonnil := filter (fun it => negb (is_nil (fst it))) items in
             let nils := filter (fun it => is_nil (fst it)) items in
-            (* the key field is run through executeWorkUnit directly whatever its flags ([sync]);
-               under F9 the directives of a selection are looked at here, after __typename *)
-            let checked :=
-              (fix go (l : list item) : res (list item) :=
-                 match l with
-                 | [] => Ok []
-                 | it :: t =>
-                     if String.eqb (s_name (fst it)) "__typename" then
-                       match go t with Bad e => Bad e | Ok t' => Ok (it :: t') end
-                     else
-                       match should_include Q (s_dirs (fst it)) with
-                       | Bad e => Bad e
-                       | Ok b => match go t with Bad e => Bad e | Ok t' => Ok (if b then it :: t' else t') end
-                       end
-                 end) sels in
-            match checked with
+            match check_sels sels with
             | Bad e => inr e
             | Ok sels' =>
                 let all := sels' ++ key_item o in
                 let hp := map (fun it => (snd it, NNull)) nils
                           ++ map (fun it => (snd it, NObj (map (fun s => s_alias (fst s)) all))) nonnil in
-                let per_sel (sync : bool) (it : item) : xres :=
-                  let h := fst it in
-                  let dests := map (fun x => (fst x, snd x ++ [PKey (s_alias h)])) nonnil in
-                  if String.eqb (s_name h) "__typename" then
-                    mk_xres (map (fun x => (snd x, NVal (JStr (o_name o)))) dests) [] []
-                  else
-                    match find_field (s_name h) (o_fields o) with
-                    | None => mk_xres [] [] (map (fun x => nest (snd x) err_invalid) dests)
-                    | Some f =>
-                        let u := mk_unit f h (snd it) dests false (o_name o) in
-                        if sync then ex u
-                        else if should_use_batch f then
-                          mk_xres [] (split_par (mk_unit f h (snd it) dests true (o_name o))) []
-                        else if f_expensive f then mk_xres [] (split_work_unit u) []
-                        else if f_external f then mk_xres [] (split_par u) []
-                        else ex u
-                    end in
                 inl (xapp (mk_xres hp [] [])
-                       (xapp (xconcat (map (per_sel false) sels')) (xconcat (map (per_sel true) (key_item o)))))
+                       (xapp (xconcat (map (per_sel ex o nonnil false) sels'))
+                             (xconcat (map (per_sel ex o nonnil true) (key_item o)))))
             end
         end
     end.
-
 
   Fixpoint flatten_lists (items : list (value * path)) : heap * list (value * path) :=
     match items with
@@ -133,12 +137,7 @@ Section Exec.
         let r := flatten_lists t in
         match v with
         | VList l =>
-            ((p, NList (List.length l)) :: fst r,
-             (fix go (l : list value) (i : nat) : list (value * path) :=
-                match l with
-                | [] => []
-                | x :: l' => (x, p ++ [PIdx i]) :: go l' (Datatypes.S i)
-                end) l 0 ++ snd r)
+            ((p, NList (List.length l)) :: fst r, index_items p l 0 ++ snd r)
         | _ => ((p, NList 0) :: fst r, snd r)
         end
     end.
